@@ -6,6 +6,7 @@ package types
 import (
 	"bytes"
 	"fmt"
+	"io/ioutil"
 	"os"
 	"path/filepath"
 
@@ -66,10 +67,22 @@ func vC03Read(pv *PrivValidator) vC03Rec {
 // (directory does not exist). The engine stubs WriteFileAtomic as "error iff under /nonexistent-verif-dir".
 func vC03Path(writable bool) string {
 	if !writable {
-		if vNondetBool("emptypath") {
+		switch vNondetLen("failing-write", 0, 2) {
+		case 0:
 			return ""
+		case 1:
+			return "/nonexistent-verif-dir/priv_validator.json"
 		}
-		return "/nonexistent-verif-dir/priv_validator.json"
+		// the write fails in its FIRST stage (refreshing the .bak copy of the old content): nothing new
+		// is on disk either. Natively: an existing file whose .bak path is a non-empty directory.
+		if vSymbolic() {
+			return "/bakfail-verif-dir/priv_validator.json"
+		}
+		dir := filepath.Join(os.TempDir(), fmt.Sprintf("verif-c03-bak-%d", os.Getpid()))
+		os.MkdirAll(filepath.Join(dir, "priv_validator.json.bak", "x"), 0700)
+		p := filepath.Join(dir, "priv_validator.json")
+		ioutil.WriteFile(p, []byte("{}"), 0600)
+		return p
 	}
 	if vSymbolic() {
 		return "/writable-verif-dir/priv_validator.json"
